@@ -1,3 +1,295 @@
 // harnesses mounted as child module of agdb/src/storage/any_storage.rs
+//
+// C06: all storage variants behave identically. `DbImpl<Store>` is a
+// deterministic function of the answers its `StorageData` gives, so the
+// variants give identical query results iff they are observationally equal as
+// `StorageData`. Each variant is compared, call by call, against ONE reference
+// model (a byte array with a length): same Ok/Err, same `len()`, same bytes
+// from `read` (owned vs borrowed compared by content), same `is_empty()`.
+// The file-backed variants run over the model file system.
 #[allow(unused_imports)]
 use super::*;
+use crate::verif_fs;
+use crate::verif_support::ok;
+
+const C06_INIT_MAX: usize = 3;
+
+struct C06Ref {
+    d: [u8; 12],
+    n: usize,
+}
+
+impl C06Ref {
+    fn write(&mut self, pos: usize, b: &[u8; 3], l: usize) {
+        // gap [n, pos) cannot exist: pos <= n is the contract domain
+        if l > 0 {
+            self.d[pos] = b[0];
+        }
+        if l > 1 {
+            self.d[pos + 1] = b[1];
+        }
+        if l > 2 {
+            self.d[pos + 2] = b[2];
+        }
+        if pos + l > self.n {
+            self.n = pos + l;
+        }
+    }
+    fn resize(&mut self, new_len: usize) {
+        macro_rules! z { ($($i:literal),*) => { $( if $i >= self.n && $i < new_len { self.d[$i] = 0; } )* }; }
+        z!(0, 1, 2, 3, 4, 5, 6, 7, 8, 9, 10, 11);
+        self.n = new_len;
+    }
+}
+
+fn c06_init() -> (C06Ref, Vec<u8>) {
+    let init: [u8; C06_INIT_MAX] = kani::any();
+    let n0: usize = kani::any();
+    kani::assume(n0 <= C06_INIT_MAX);
+    verif_fs::reset(&init[..n0]);
+    let mut r = C06Ref { d: [0; 12], n: n0 };
+    let mut v: Vec<u8> = Vec::with_capacity(12);
+    unsafe {
+        let p = v.as_mut_ptr();
+        if n0 > 0 {
+            r.d[0] = init[0];
+            p.add(0).write(init[0]);
+        }
+        if n0 > 1 {
+            r.d[1] = init[1];
+            p.add(1).write(init[1]);
+        }
+        if n0 > 2 {
+            r.d[2] = init[2];
+            p.add(2).write(init[2]);
+        }
+        v.set_len(n0);
+    }
+    (r, v)
+}
+
+/// `s` and the reference agree on everything a `StorageData` user can observe.
+fn c06_same<S: StorageData>(s: &S, r: &C06Ref) {
+    assert!(s.len() == r.n as u64, "C06: len() differs from the reference");
+    assert!(s.is_empty() == (r.n == 0), "C06: is_empty() differs from the reference");
+    // whole content
+    let all = ok(s.read(0, r.n as u64));
+    assert!(all.len() == r.n, "C06: read(0, len) returned a different number of bytes");
+    macro_rules! cmp { ($($i:literal),*) => { $( if $i < r.n { assert!(all[$i] == r.d[$i], "C06: content differs from the reference"); } )* }; }
+    cmp!(0, 1, 2, 3, 4, 5, 6, 7, 8, 9);
+    std::mem::forget(all);
+    // an arbitrary window inside the content
+    let p: usize = kani::any();
+    let l: usize = kani::any();
+    kani::assume(l <= 3 && p <= r.n && l <= r.n - p);
+    let w = ok(s.read(p as u64, l as u64));
+    assert!(w.len() == l, "C06: read(pos, n) returned a different number of bytes");
+    if l > 0 {
+        assert!(w[0] == r.d[p], "C06: window content differs");
+    }
+    if l > 1 {
+        assert!(w[1] == r.d[p + 1], "C06: window content differs");
+    }
+    if l > 2 {
+        assert!(w[2] == r.d[p + 2], "C06: window content differs");
+    }
+    std::mem::forget(w);
+}
+
+/// One symbolic call applied to both; returns the kind for covers.
+fn c06_step<S: StorageData>(s: &mut S, r: &mut C06Ref) -> u8 {
+    let kind: u8 = kani::any();
+    kani::assume(kind < 3);
+    if kind == 0 {
+        let pos: usize = kani::any();
+        let l: usize = kani::any();
+        let b: [u8; 3] = kani::any();
+        // contract domain used by Storage: a write starts at or before the end
+        kani::assume(l <= 2 && pos <= r.n);
+        ok(s.write(pos as u64, &b[..l]));
+        r.write(pos, &b, l);
+    } else if kind == 1 {
+        let new_len: usize = kani::any();
+        kani::assume(new_len <= r.n + 2);
+        ok(s.resize(new_len as u64));
+        r.resize(new_len);
+    } else {
+        ok(s.flush());
+    }
+    kind
+}
+
+fn c06_run<S: StorageData>(s: &mut S, r: &mut C06Ref, steps: usize) {
+    c06_same(s, r);
+    let k1 = c06_step(s, r);
+    c06_same(s, r);
+    let mut k2 = 9;
+    if steps > 1 {
+        k2 = c06_step(s, r);
+        c06_same(s, r);
+    }
+    kani::cover!(k1 == 0, "write");
+    kani::cover!(k1 == 1, "resize");
+    kani::cover!(steps < 2 || (k1 == 1 && k2 == 0), "resize then write");
+    kani::cover!(true, "end of harness reachable");
+}
+
+//@ id=C06 tier=quick timeout=900 bounds="initial content 0..=3 symbolic bytes; 1 symbolic call (write of 0..=2 bytes at pos <= len incl. across the end, resize to <= len+2, flush); after each call len/is_empty/full content/an arbitrary window compared" desc="MemoryStorage is observationally equal to the reference byte-array model" kernel="MemoryStorage::write,MemoryStorage::resize,MemoryStorage::read,MemoryStorage::len"
+#[kani::proof]
+#[kani::stub(std::fmt::format, crate::verif_support::fmt_stub)]
+#[kani::stub(crate::DbError::new, crate::verif_support::dberror_new_stub)]
+#[kani::unwind(5)]
+fn c06_memory_storage_one_call() {
+    let (mut r, v) = c06_init();
+    let mut s = MemoryStorage::from_buffer("m", v);
+    c06_run(&mut s, &mut r, 1);
+    std::mem::forget(s);
+}
+
+//@ id=C06 tier=thorough timeout=3600 bounds="initial content 0..=3 symbolic bytes; 2 symbolic calls (write of 0..=2 bytes at pos <= len incl. across the end, resize to <= len+2, flush); after each call len/is_empty/full content/an arbitrary window compared" desc="MemoryStorage is observationally equal to the reference byte-array model" kernel="MemoryStorage::write,MemoryStorage::resize,MemoryStorage::read,MemoryStorage::len"
+#[kani::proof]
+#[kani::stub(std::fmt::format, crate::verif_support::fmt_stub)]
+#[kani::stub(crate::DbError::new, crate::verif_support::dberror_new_stub)]
+#[kani::unwind(5)]
+fn c06_memory_storage_matches_reference() {
+    let (mut r, v) = c06_init();
+    let mut s = MemoryStorage::from_buffer("m", v);
+    c06_run(&mut s, &mut r, 2);
+    std::mem::forget(s);
+}
+
+//@ id=C06 tier=quick timeout=1200 bounds="as the MemoryStorage harness, variant AnyStorage::Memory, 1 call" desc="AnyStorage::Memory delegates every call unchanged" kernel="AnyStorage::write,AnyStorage::resize,AnyStorage::read,AnyStorage::len,AnyStorage::is_empty,AnyStorage::flush"
+#[kani::proof]
+#[kani::stub(std::fmt::format, crate::verif_support::fmt_stub)]
+#[kani::stub(crate::DbError::new, crate::verif_support::dberror_new_stub)]
+#[kani::unwind(5)]
+fn c06_any_memory_matches_reference() {
+    let (mut r, v) = c06_init();
+    let mut s = AnyStorage::Memory(MemoryStorage::from_buffer("m", v));
+    c06_run(&mut s, &mut r, 1);
+    std::mem::forget(s);
+}
+
+//@ id=C06 tier=quick timeout=1500 mem=16 bounds="initial file content 0..=3 symbolic bytes (model file system); 1 symbolic call; after each call len/is_empty/full content/an arbitrary window compared" desc="FileStorage is observationally equal to the reference byte-array model" kernel="FileStorage::new,FileStorage::write,FileStorage::resize,FileStorage::read,FileStorage::len,FileStorage::flush"
+#[kani::proof]
+#[kani::stub(std::fmt::format, crate::verif_support::fmt_stub)]
+#[kani::stub(crate::DbError::new, crate::verif_support::dberror_new_stub)]
+#[kani::stub(<crate::DbError as std::convert::From<std::io::Error>>::from, crate::verif_support::ioerr_stub)]
+#[kani::stub(crate::storage::write_ahead_log::WriteAheadLog::wal_filename, crate::verif_support::wal_name_stub)]
+#[kani::stub(std::vec::from_elem, crate::verif_support::from_elem_stub8)]
+#[kani::unwind(3)]
+fn c06_file_storage_one_call() {
+    let (mut r, v) = c06_init();
+    std::mem::forget(v);
+    let mut s = ok(FileStorage::new("db"));
+    c06_run(&mut s, &mut r, 1);
+    std::mem::forget(s);
+}
+
+//@ id=C06 tier=thorough timeout=5400 mem=16 bounds="initial file content 0..=3 symbolic bytes (model file system); 2 symbolic calls; after each call len/is_empty/full content/an arbitrary window compared" desc="FileStorage is observationally equal to the reference byte-array model" kernel="FileStorage::new,FileStorage::write,FileStorage::resize,FileStorage::read,FileStorage::len,FileStorage::flush"
+#[kani::proof]
+#[kani::stub(std::fmt::format, crate::verif_support::fmt_stub)]
+#[kani::stub(crate::DbError::new, crate::verif_support::dberror_new_stub)]
+#[kani::stub(<crate::DbError as std::convert::From<std::io::Error>>::from, crate::verif_support::ioerr_stub)]
+#[kani::stub(crate::storage::write_ahead_log::WriteAheadLog::wal_filename, crate::verif_support::wal_name_stub)]
+#[kani::stub(std::vec::from_elem, crate::verif_support::from_elem_stub8)]
+#[kani::unwind(3)]
+fn c06_file_storage_matches_reference() {
+    let (mut r, v) = c06_init();
+    std::mem::forget(v);
+    let mut s = ok(FileStorage::new("db"));
+    c06_run(&mut s, &mut r, 2);
+    std::mem::forget(s);
+}
+
+//@ id=C06 tier=quick timeout=1500 mem=16 bounds="as the FileStorage harness, variant AnyStorage::File, 1 call" desc="AnyStorage::File delegates every call unchanged" kernel="AnyStorage::write,AnyStorage::resize,AnyStorage::read,AnyStorage::len"
+#[kani::proof]
+#[kani::stub(std::fmt::format, crate::verif_support::fmt_stub)]
+#[kani::stub(crate::DbError::new, crate::verif_support::dberror_new_stub)]
+#[kani::stub(<crate::DbError as std::convert::From<std::io::Error>>::from, crate::verif_support::ioerr_stub)]
+#[kani::stub(crate::storage::write_ahead_log::WriteAheadLog::wal_filename, crate::verif_support::wal_name_stub)]
+#[kani::stub(std::vec::from_elem, crate::verif_support::from_elem_stub8)]
+#[kani::unwind(3)]
+fn c06_any_file_matches_reference() {
+    let (mut r, v) = c06_init();
+    std::mem::forget(v);
+    let mut s = AnyStorage::File(ok(FileStorage::new("db")));
+    c06_run(&mut s, &mut r, 1);
+    std::mem::forget(s);
+}
+
+//@ id=C06 tier=quick timeout=1500 mem=16 bounds="initial file content 0..=3 symbolic bytes; 1 symbolic call" desc="FileStorageMemoryMapped (the default Db variant) is observationally equal to the reference model, and its file copy stays identical to its memory copy" kernel="FileStorageMemoryMapped::new,FileStorageMemoryMapped::write,FileStorageMemoryMapped::resize,FileStorageMemoryMapped::read,FileStorageMemoryMapped::len"
+#[kani::proof]
+#[kani::stub(std::fmt::format, crate::verif_support::fmt_stub)]
+#[kani::stub(crate::DbError::new, crate::verif_support::dberror_new_stub)]
+#[kani::stub(<crate::DbError as std::convert::From<std::io::Error>>::from, crate::verif_support::ioerr_stub)]
+#[kani::stub(crate::storage::write_ahead_log::WriteAheadLog::wal_filename, crate::verif_support::wal_name_stub)]
+#[kani::stub(std::vec::from_elem, crate::verif_support::from_elem_stub8)]
+#[kani::unwind(3)]
+fn c06_memory_mapped_one_call() {
+    let (mut r, v) = c06_init();
+    std::mem::forget(v);
+    let mut s = ok(FileStorageMemoryMapped::new("db"));
+    c06_run(&mut s, &mut r, 1);
+    // the persistent copy equals what reads are served from
+    assert!(verif_fs::data_len() == r.n, "C06: memory-mapped variant: file length differs from memory");
+    macro_rules! cmp { ($($i:literal),*) => { $( if $i < r.n { assert!(verif_fs::data_byte($i) == r.d[$i], "C06: memory-mapped variant: file content differs from memory"); } )* }; }
+    cmp!(0, 1, 2, 3, 4, 5, 6, 7, 8, 9);
+    std::mem::forget(s);
+}
+
+//@ id=C06 tier=thorough timeout=5400 mem=16 bounds="initial file content 0..=3 symbolic bytes; 2 symbolic calls" desc="FileStorageMemoryMapped (the default Db variant) is observationally equal to the reference model, and its file copy stays identical to its memory copy" kernel="FileStorageMemoryMapped::new,FileStorageMemoryMapped::write,FileStorageMemoryMapped::resize,FileStorageMemoryMapped::read,FileStorageMemoryMapped::len"
+#[kani::proof]
+#[kani::stub(std::fmt::format, crate::verif_support::fmt_stub)]
+#[kani::stub(crate::DbError::new, crate::verif_support::dberror_new_stub)]
+#[kani::stub(<crate::DbError as std::convert::From<std::io::Error>>::from, crate::verif_support::ioerr_stub)]
+#[kani::stub(crate::storage::write_ahead_log::WriteAheadLog::wal_filename, crate::verif_support::wal_name_stub)]
+#[kani::stub(std::vec::from_elem, crate::verif_support::from_elem_stub8)]
+#[kani::unwind(3)]
+fn c06_memory_mapped_matches_reference() {
+    let (mut r, v) = c06_init();
+    std::mem::forget(v);
+    let mut s = ok(FileStorageMemoryMapped::new("db"));
+    c06_run(&mut s, &mut r, 2);
+    // the persistent copy equals what reads are served from
+    assert!(verif_fs::data_len() == r.n, "C06: memory-mapped variant: file length differs from memory");
+    macro_rules! cmp { ($($i:literal),*) => { $( if $i < r.n { assert!(verif_fs::data_byte($i) == r.d[$i], "C06: memory-mapped variant: file content differs from memory"); } )* }; }
+    cmp!(0, 1, 2, 3, 4, 5, 6, 7, 8, 9);
+    std::mem::forget(s);
+}
+
+//@ id=C06 tier=thorough timeout=5400 mem=16 bounds="as the memory-mapped harness, variant AnyStorage::MemoryMapped (what AnyStorage::new builds), 1 call" desc="AnyStorage::new builds the memory-mapped variant and delegates unchanged" kernel="AnyStorage::new,AnyStorage::write,AnyStorage::resize,AnyStorage::read,AnyStorage::len"
+#[kani::proof]
+#[kani::stub(std::fmt::format, crate::verif_support::fmt_stub)]
+#[kani::stub(crate::DbError::new, crate::verif_support::dberror_new_stub)]
+#[kani::stub(<crate::DbError as std::convert::From<std::io::Error>>::from, crate::verif_support::ioerr_stub)]
+#[kani::stub(crate::storage::write_ahead_log::WriteAheadLog::wal_filename, crate::verif_support::wal_name_stub)]
+#[kani::stub(std::vec::from_elem, crate::verif_support::from_elem_stub8)]
+#[kani::unwind(3)]
+fn c06_any_new_matches_reference() {
+    let (mut r, v) = c06_init();
+    std::mem::forget(v);
+    let mut s = ok(AnyStorage::new("db"));
+    assert!(matches!(s, AnyStorage::MemoryMapped(_)), "C06: AnyStorage::new is documented to build the memory-mapped variant");
+    c06_run(&mut s, &mut r, 1);
+    std::mem::forget(s);
+}
+
+//@ id=C06 tier=quick timeout=900 mem=16 bounds="initial file content 0..=3 symbolic bytes; no mutating call" desc="AnyStorage::new builds the memory-mapped variant (as documented) and presents the file content unchanged" kernel="AnyStorage::new,AnyStorage::read,AnyStorage::len,AnyStorage::is_empty,FileStorageMemoryMapped::new"
+#[kani::proof]
+#[kani::stub(std::fmt::format, crate::verif_support::fmt_stub)]
+#[kani::stub(crate::DbError::new, crate::verif_support::dberror_new_stub)]
+#[kani::stub(<crate::DbError as std::convert::From<std::io::Error>>::from, crate::verif_support::ioerr_stub)]
+#[kani::stub(crate::storage::write_ahead_log::WriteAheadLog::wal_filename, crate::verif_support::wal_name_stub)]
+#[kani::stub(std::vec::from_elem, crate::verif_support::from_elem_stub8)]
+#[kani::unwind(3)]
+fn c06_any_new_is_memory_mapped_and_reads_the_file() {
+    let (r, v) = c06_init();
+    std::mem::forget(v);
+    let s = ok(AnyStorage::new("db"));
+    assert!(matches!(s, AnyStorage::MemoryMapped(_)), "C06: AnyStorage::new is documented to build the memory-mapped variant");
+    c06_same(&s, &r);
+    kani::cover!(r.n == 3, "three bytes");
+    kani::cover!(true, "end of harness reachable");
+    std::mem::forget(s);
+}
